@@ -223,7 +223,7 @@ func (e *env) runText(c *Case, grammar bool) ([]F, map[string]interface{}) {
 		codes := map[int]bool{}
 		name, kind := "", ""
 		var flat []string
-		flatOK := false
+		flatOK := ""
 		for i := 0; i < 6; i++ {
 			qq, err, pan := safeParse(q, vars)
 			switch {
@@ -253,21 +253,21 @@ func (e *env) runText(c *Case, grammar bool) ([]F, map[string]interface{}) {
 	return fs, obs
 }
 
-func safeFlatten(ss *graphql.SelectionSet) (aliases []string, ok bool) {
+func safeFlatten(ss *graphql.SelectionSet) (aliases []string, status string) {
 	defer func() {
 		if e := recover(); e != nil {
-			aliases, ok = nil, false
+			aliases, status = nil, "panic"
 		}
 	}()
 	sels, err := graphql.Flatten(ss)
 	if err != nil {
-		return nil, false
+		return nil, "error"
 	}
 	for _, s := range sels {
 		aliases = append(aliases, s.Alias)
 	}
 	sort.Strings(aliases)
-	return aliases, true
+	return aliases, "ok"
 }
 
 // runBomb measures the visit counters on one member of a fragment-bomb family.
